@@ -3,9 +3,16 @@ from checklib.main import native
 from contracts import dep_c, entry_c
 
 
+def namedb_tasks():
+    """utils.NameDatabase, the symbol table of every generated function (mode U, contracts/namedb_c.py)"""
+    from contracts import namedb_c as n
+
+    return [dict(name="NameDatabase.gensym", build=n.t_gensym, mode="U"), dict(name="NameDatabase.__getitem__", build=n.t_getitem, mode="U"), dict(name="lemma.symbols_of_distinct_objects", build=n.t_two_objects, mode="U")]
+
+
 def entry_tasks(tier):
-    return [dict(name="generate_dispatch.instances", build=entry_c.entry_task(tier, native), mode="F")]
+    return namedb_tasks() + [dict(name="generate_dispatch.instances", build=entry_c.entry_task(tier, native), mode="F")]
 
 
 def dep_tasks(tier):
-    return [dict(name="generate_dependent_dispatch.instances", build=dep_c.dep_task(tier, native), mode="F")]
+    return namedb_tasks() + [dict(name="generate_dependent_dispatch.instances", build=dep_c.dep_task(tier, native), mode="F")]
